@@ -562,6 +562,43 @@ def emit_funcs(ents):
         "end XmlRs.Gen.XPathFuncs", ""])
 
 
+def predefined_entities(repo):
+    """the predefined entities as `Context::entity` (info/src/lib.rs) answers for them when no declaration of that name exists:
+    [(name, replacement text)] in source order"""
+    path = os.path.join(repo, "info/src/lib.rs")
+    try:
+        src = open(path).read()
+    except OSError as e:
+        return [], ["cannot read %s: %s" % (path, e)]
+    m = re.search(r"match name \{(.*?)_ => Err\(error::Error::NotFoundReference\(name\.to_string\(\)\)\),\s*\}", src, re.S)
+    if not m:
+        return [], ["info/src/lib.rs: the `match name { ... }` of the predefined entities was not found as last read"]
+    ents, probs = [], []
+    arms = [a for a in m.group(1).split("\n") if a.strip()]
+    for a in arms:
+        am = re.match(r'\s*"(\w+)" => Ok\(node\(XmlEntity::from\(\("(\w+)", "((?:[^"\\]|\\.)*)", self\)\)\)\),\s*$', a)
+        if not am or am.group(1) != am.group(2):
+            probs.append("info/src/lib.rs: an arm of the predefined entities has a shape the translator does not know: %s" % a.strip()[:100])
+            continue
+        text = re.sub(r'\\(.)', lambda mm: {'n': '\n', 't': '\t'}.get(mm.group(1), mm.group(1)), am.group(3))
+        ents.append((am.group(1), text))
+    return ents, probs
+
+
+def lean_chars(t):
+    esc = {"'": "\\'", "\\": "\\\\", "\n": "\\n", "\t": "\\t"}
+    return "[" + ", ".join("'%s'" % esc.get(c, c) for c in t) + "]"
+
+
+def emit_predefined(ents):
+    return "\n".join([
+        "/-! GENERATED on every check run by tools/translate.py from info/src/lib.rs (`Context::entity`): the entities the library knows",
+        "    without a declaration, with their replacement text.  Thm/C01 `predefined_is_the_sources` states that the model's table is this one. -/",
+        "namespace XmlRs.Gen.Predefined", "",
+        "def table : List (List Char × List Char) :=", "  [" + ",\n   ".join("(%s, %s)" % (lean_chars(n), lean_chars(t)) for n, t in ents) + "]", "",
+        "end XmlRs.Gen.Predefined", ""])
+
+
 FUNC_PROBLEMS = []
 
 
@@ -572,6 +609,10 @@ def translate_all(repo=None):
     FUNC_PROBLEMS[:] = probs
     if ents:
         write_if_changed(os.path.join(gen, "XPathFuncs.lean"), emit_funcs(ents))
+    pents, pprobs = predefined_entities(repo)
+    FUNC_PROBLEMS.extend(pprobs)
+    if pents:
+        write_if_changed(os.path.join(gen, "Predefined.lean"), emit_predefined(pents))
     gx = Grammar("xml")
     gx.add_file(os.path.join(repo, "nom/src/lib.rs"))
     gx.add_file(os.path.join(repo, "parser/src/lib.rs"))
@@ -597,3 +638,5 @@ if __name__ == "__main__":
         print("snapshots written to", REFDIR)
     write_refs(gx, gp)
     print("differences from the reviewed grammars:", grammar_diffs("xml", gx), grammar_diffs("xpath", gp))
+    if FUNC_PROBLEMS:
+        print("tables that could not be read as before:", FUNC_PROBLEMS)
